@@ -281,7 +281,7 @@ def run(rep, tier, seed, only=None):
     rep.functions = ["Circuit.into_bench", "converters.convert_gate and every _convert_*", "converters._add_new_gate_to_blocks",
                      "Circuit.into_graphviz_digraph(as_bench=True)"]
     rep.bounds = {"circuits": "per-type lemma circuits (incl. identical operands, chains, blocks) + feature + seeded <=5 inputs/<=10 (quick) <=14 (thorough) gates, <=2 blocks"}
-    rep.outside = ["circuits without inputs (documented precondition)", "constants carrying operands (not expressible in bench)"]
+    rep.outside = ["circuits without inputs (documented precondition)"]
     rep.rule = "program = circuit (+blocks); every pre-existing gate's function compared before/after by z3 over all inputs"
     rep.explanation = "translation validation of into_bench"
     items = [("lemma", None)] + [("seeded", (seed * 57 + s, 40 if thorough else 15, 14 if thorough else 10)) for s in range(128 if thorough else 47)]
